@@ -381,13 +381,16 @@ func (f *FileLogger) updateFile() {
 func (f *FileLogger) sealTornTail(name string) error {
 	r, err := os.Open(name)
 	if err != nil {
-		return err
+		// a write-only file (drop-box permissions): its last byte cannot be inspected, append as before
+		f.logf(lg.WARN, "[%s/%s] unable to read the last byte of %s: %s", f.topic, f.opts.Channel, name, err)
+		return nil
 	}
 	defer r.Close()
 	last := make([]byte, 1)
 	_, err = r.ReadAt(last, f.filesize-1)
 	if err != nil {
-		return err
+		f.logf(lg.WARN, "[%s/%s] unable to read the last byte of %s: %s", f.topic, f.opts.Channel, name, err)
+		return nil
 	}
 	if last[0] == '\n' {
 		return nil
